@@ -49,7 +49,11 @@ def word(n):
 
 
 def table(n):
-    return gen.feature_table(n, boundary_only=n > 15)
+    t = gen.feature_table(n, boundary_only=n > 15)
+    if n >= 6:
+        # locations that mix a part on another record with local parts (only the local ones move with the record)
+        t = t + [("mixedref_region", [(1, 3, 1)]), ("mixedref_region", [(0, 2, 1), (3, 5, 1)]), ("mixedref_region", [(n - 2, n, -1)])]
+    return t
 
 
 def units(tier):
